@@ -1,4 +1,4 @@
-import KdVerif.Props.C09
+import KdVerif.Proofs.IRDecoders
 /-
   C10 — syscall results: errors take precedence and come only from the END record.
 
@@ -7,7 +7,7 @@ import KdVerif.Props.C09
   serializer changes every decoder's IR and these theorems are re-checked against it).
 -/
 namespace KdVerif.C10
-open KdVerif.IR KdVerif.C09
+open KdVerif.IR KdVerif.DecoderFacts
 
 /-- The BSD syscalls that cannot fail or do not return (the property's own list, by name key). -/
 def exempt : List Nat :=
@@ -81,6 +81,13 @@ theorem all_resultful : decoders.all resultShaped = true := by decide +kernel
 
 /-- The result part of every non-exempt BSD decoder reads no START word, thread id or context table. -/
 theorem all_tails_read_end_only : decoders.all tailReadsEndOnly = true := by decide +kernel
+
+/-- The call part of every BSD syscall decoder reads no END word and no errno name (stated here independently
+    of C09, which proves more about call parts). -/
+theorem bsd_calls_ignore_end :
+    decoders.all (fun d => !(d.family == 0) || (match d.shape with
+      | some s => (callPiecesOf d s).all (within callSel)
+      | none => false)) = true := by decide +kernel
 
 /-! ### Semantics of the result -/
 
@@ -217,11 +224,15 @@ theorem tail_depends_only_on_end (d : Decoder) (hd : d ∈ decoders) (hfam : d.f
   apply evalS_congr tailSel _ _ _ _ hw
   constructor <;> simp_all [tailSel, ctx]
 
-/-- The call part does not depend on the END record (C09), restated here for the BSD decoders. -/
-theorem call_indep_of_end (d : Decoder) (hd : d ∈ decoders) (hsys : syscallLike d = true)
+/-- The call part does not depend on the END record: for every BSD decoder and any two windows with the same
+    START words and lookups — whatever their END records — the call texts are equal. -/
+theorem call_indep_of_end (d : Decoder) (hd : d ∈ decoders) (hfam : d.family = 0)
     (s : Shape) (hs : d.shape = some s) (h : Host) (t : Tables) (w w' : Window) (hw : SameStart w w') :
-    evalPieces (ctx h t w) (callPiecesOf d s) = evalPieces (ctx h t w') (callPiecesOf d s) :=
-  call_text_function_of_start_and_lookups d hd hsys s hs h t w w' hw
+    evalPieces (ctx h t w) (callPiecesOf d s) = evalPieces (ctx h t w') (callPiecesOf d s) := by
+  have := List.all_eq_true.mp bsd_calls_ignore_end d hd
+  simp only [hfam, beq_self_eq_true, Bool.not_true, Bool.false_or, hs] at this
+  apply evalPieces_congr callSel _ _ _ _ this
+  constructor <;> simp [callSel, ctx, hw.start, hw.lookups, hw.rest]
 
 /-! ### Non-vacuity -/
 
